@@ -63,7 +63,7 @@ func TestVerifC08CLI(t *testing.T) {
 		return
 	}
 	thresholds := []string{"0.0000001", "0.01", "0.5", "0.75", "0.9", "0.99", "0.999", "1.0", "1"}
-	pick := []string{"strings", "crosspkg", "longunicode"}
+	pick := []string{"strings", "crosspkg", "longunicode", "hugeliteral"}
 	idx := 0
 	for _, id := range pick {
 		var b progfam.Base
@@ -139,6 +139,9 @@ func TestVerifC08CLI(t *testing.T) {
 						cur[k] = a.Confidence
 						if thr == "0.0000001" {
 							r.Count(fmt.Sprintf("confidence_band/%.2f", math.Floor(a.Confidence*20)/20), 1)
+							if a.Confidence >= 0.99 && a.Confidence < 1 {
+								r.Count("confidence_in_[0.99,1)", 1)
+							}
 						}
 						byFn[a.MatchedFunction] = append(byFn[a.MatchedFunction], a.Confidence)
 						if math.IsNaN(a.Confidence) || a.Confidence < 0 || a.Confidence > 1 {
@@ -167,7 +170,13 @@ func TestVerifC08CLI(t *testing.T) {
 					}
 					for _, a := range exact {
 						k := a.MatchedFunction + "|" + a.SignatureID
-						if a.Confidence < tv {
+						// the JSON back end's exact mode uses a fixed 0.99 cut-off by design (the statement says
+						// so): the configured threshold binds it only up to 0.99
+						need := tv
+						if ext == ".json" && need > 0.99 {
+							need = 0.99
+						}
+						if a.Confidence < need {
 							bad = append(bad, fmt.Sprintf("--exact alert %s has confidence %v, lower than the threshold %s", k, a.Confidence, thr))
 						}
 						// the JSON back end's exact mode uses a fixed 0.99 cut-off by design: compare below it only
@@ -192,7 +201,11 @@ func TestVerifC08CLI(t *testing.T) {
 					}
 					if len(bad) > 0 {
 						sort.Strings(bad)
-						r.Violate(key, fmt.Sprintf("indexed %s, scanned its variant %q (%s):\n%s", id, v.Desc, v.Op, strings.Join(bad, "\n")), rp)
+						desc := v.Desc
+						if len(desc) > 120 {
+							desc = desc[:120] + "..."
+						}
+						r.Violate(key, fmt.Sprintf("indexed %s, scanned its variant %q (%s):\n%s", id, desc, v.Op, strings.Join(bad, "\n")), rp)
 					}
 				}
 			}
